@@ -1,2 +1,333 @@
-/-! Stub driver: the model driver for this property is not built yet. -/
-def main : IO Unit := IO.println "unimplemented"
+import JoblibModel.LokyMgr
+import JoblibModel.IOUtil
+/-! Driver for C10: predicts the outcome classes of a fault schedule on the loky backend.
+
+Request (one line, single spaces):
+
+    scn <n_jobs> <queue_size> <managed 0|1> <ncalls>  then per call:
+    c <n_tasks> <pre_k> <pre_obs 0|1> <st_at | -> <st_k> <st_obs 0|1> <nfaults> (<task> <class>)*
+
+* `pre_k`  : that many idle workers (lowest pids of the current executor) are killed BEFORE the call;
+  `pre_obs = 1`: the manager thread gets to run before the call starts (the harness sleeps),
+  `0`: a race — both orders are explored.
+* `st_at`  : the call's input generator kills `st_k` workers just before yielding item `st_at`
+  (tasks `< st_at` are already submitted); `st_obs` as above.
+* fault classes of a task (what the worker running it does):
+  `nobytes`   dies holding the call item, nothing written (argument unpickling, task start, mid-task, result pickling),
+  `midsend`   dies after writing the first bytes of its result message,
+  `aftersend` dies after writing the complete result message.
+
+The client is joblib's: a call = (`configure` unless inside a `with` block) ; submit every task ; wait ;
+on an exception `abort_everything(ensure_ready = managed)`, else `terminate()` when not managed.
+Inside a call EVERY interleaving of manager iterations and worker runs is explored (`managerStep`,
+`step` — the definitions the theorems are about); a worker run = `take` + the task's send/kill events,
+done by the idle live worker with the lowest pid (workers are interchangeable).
+
+Reply: `outs <trace> | <trace> | …` — the set of possible traces, sorted; a trace has one token per call:
+`ok@<executor_id>`, `<ExceptionClass>@<executor_id>` or `hang` (nothing after a hang).
+Malformed request: `bad-op`. -/
+open JoblibModel JoblibModel.LokyMgr JoblibModel.IOUtil
+
+inductive FaultCls where
+  | nobytes | midsend | aftersend
+deriving DecidableEq, Repr
+
+structure CallSpec where
+  nTasks : Nat
+  preK : Nat
+  preObs : Bool
+  stAt : Option Nat
+  stK : Nat
+  stObs : Bool
+  faults : List (Nat × FaultCls)
+deriving Repr
+
+structure Scn where
+  nJobs : Nat
+  queueSize : Nat
+  managed : Bool
+  calls : List CallSpec
+deriving Repr
+
+/-! #### parsing -/
+
+def bool? (s : String) : Option Bool :=
+  if s = "0" then some false else if s = "1" then some true else none
+
+def cls? (s : String) : Option FaultCls :=
+  if s = "nobytes" then some .nobytes
+  else if s = "midsend" then some .midsend
+  else if s = "aftersend" then some .aftersend
+  else none
+
+def parseFaults : Nat → List String → Option (List (Nat × FaultCls) × List String)
+  | 0, r => some ([], r)
+  | n + 1, t :: c :: r => do
+    let t ← t.toNat?
+    let c ← cls? c
+    let (fs, r') ← parseFaults n r
+    pure ((t, c) :: fs, r')
+  | _, _ => none
+
+def parseCalls : Nat → List String → Option (List CallSpec)
+  | 0, [] => some []
+  | 0, _ => none
+  | n + 1, "c" :: nt :: pk :: po :: sa :: sk :: so :: nf :: r => do
+    let nt ← nt.toNat?
+    let pk ← pk.toNat?
+    let po ← bool? po
+    let sa ← (if sa = "-" then some none else sa.toNat?.map some)
+    let sk ← sk.toNat?
+    let so ← bool? so
+    let nf ← nf.toNat?
+    let (fs, r') ← parseFaults nf r
+    -- a fault must sit on an existing task, once
+    if fs.any (fun f => f.1 ≥ nt) then none
+    else if (fs.map (·.1)).eraseDups.length ≠ fs.length then none
+    else if (match sa with | some a => decide (a ≥ nt) | none => false) then none
+    else do
+      let rest ← parseCalls n r'
+      pure (⟨nt, pk, po, sa, sk, so, fs⟩ :: rest)
+  | _, _ => none
+
+def parseScn (line : String) : Option Scn :=
+  match tokens line with
+  | "scn" :: nj :: qs :: m :: nc :: r => do
+    let nj ← nj.toNat?
+    let qs ← qs.toNat?
+    let m ← bool? m
+    let nc ← nc.toNat?
+    if nj < 2 || qs = 0 || nc = 0 then none
+    else do
+      let cs ← parseCalls nc r
+      pure ⟨nj, qs, m, cs⟩
+  | _ => none
+
+/-! #### the explored system -/
+
+def fnTask (a : Nat) : Nat := a * a + 7
+
+def excName : Exc → String
+  | .terminatedWorker => "TerminatedWorkerError"
+  | .brokenPool => "BrokenProcessPool"
+  | .shutdownExecutor => "ShutdownExecutorError"
+  | .taskError => "TaskError"
+
+/-- Iterate the manager alone until it stops making progress. Returns the state and why it stopped. -/
+def mgrRun : Nat → State → State × StepResult
+  | 0, s => (s, .progressed)
+  | f + 1, s =>
+    match managerStep s with
+    | (s', .progressed) => mgrRun f s'
+    | (s', r) => (s', r)
+
+/-- Kill the `k` live workers with the lowest pids. -/
+def killLowest (fn : Nat → Nat) (s : State) (k : Nat) : State :=
+  let pids := ((s.processes.filter (·.alive)).map (·.pid)).take k
+  pids.foldl (fun s p => step fn s (.kill p)) s
+
+def lowestIdle (s : State) : Option Nat :=
+  (s.processes.find? (·.idle)).map (·.pid)
+
+/-- A worker run: the idle live worker with the lowest pid takes the head call item and does what the
+task's fault class says. `none` when no worker can take anything. -/
+def workerRun (victims : List (Nat × FaultCls)) (s : State) : Option State :=
+  match lowestIdle s, s.call_queue with
+  | some p, item :: _ =>
+    let s1 := step fnTask s (.take p)
+    match victims.lookup item.wid with
+    | none => some (step fnTask s1 (.sendResult p))
+    | some .nobytes => some (step fnTask s1 (.kill p))
+    | some .midsend => some (step fnTask (step fnTask s1 (.beginSend p)) (.kill p))
+    | some .aftersend => some (step fnTask (step fnTask s1 (.sendResult p)) (.kill p))
+  | _, _ => none
+
+inductive CallEnd where
+  | ok
+  | exc (e : Exc)
+  | hang
+deriving DecidableEq, Repr
+
+/-- State of the call's futures `wids`: finished (first exception in submission order, or all results), or not yet. -/
+def firstExc : List Fut → Option Exc
+  | [] => none
+  | .exception e :: _ => some e
+  | _ :: r => firstExc r
+
+def isResult : Fut → Bool
+  | .result _ => true
+  | _ => false
+
+def callStatus (s : State) (wids : List Nat) : Option CallEnd :=
+  let sts : List Fut := wids.map (fun w => match s.futures[w]? with | some r => r.st | none => .pending)
+  match firstExc sts with
+  | some e => some (.exc e)
+  | none => if sts.all isResult then some .ok else none
+
+/-- Depth-first exploration of every interleaving of manager iterations and worker runs until the call
+ends. Returns the set of (executor state at the end, how the call ended). -/
+def exploreCall (victims : List (Nat × FaultCls)) (wids : List Nat) :
+    Nat → List State → List State → List (State × CallEnd) → List (State × CallEnd)
+  | 0, _, _, acc => acc
+  | _, [], _, acc => acc
+  | fuel + 1, s :: stack, visited, acc =>
+    if visited.contains s then exploreCall victims wids fuel stack visited acc
+    else
+      let visited := s :: visited
+      match callStatus s wids with
+      | some e =>
+        let acc := if acc.contains (s, e) then acc else (s, e) :: acc
+        exploreCall victims wids fuel stack visited acc
+      | none =>
+        let (sm, _) := managerStep s
+        let succs := (if sm == s then [] else [sm]) ++
+          (match workerRun victims s with | some sw => if sw == s then [] else [sw] | none => [])
+        if succs.isEmpty then
+          let acc := if acc.contains (s, .hang) then acc else (s, .hang) :: acc
+          exploreCall victims wids fuel stack visited acc
+        else exploreCall victims wids fuel (succs ++ stack) visited acc
+
+structure Sys where
+  pool : Pool
+  backend : Backend
+  trace : List String     -- reversed
+deriving DecidableEq, Repr
+
+def setExec (p : Pool) (i : Nat) (e : State) : Pool := { p with execs := p.execs.set i e }
+
+/-- `shutdown(wait=True)`: join the manager thread of executor `i`. `none` = the join never returns. -/
+def joinMgr (p : Pool) (i : Nat) : Option Pool :=
+  match p.execs[i]? with
+  | none => some p
+  | some e =>
+    match mgrRun 1000 e with
+    | (e', .exited) => some (setExec p i e')
+    | (e', .notRunning) => some (setExec p i e')
+    | _ => none
+
+/-- `configure` + the join hidden in `get_reusable_executor` when the previous instance is replaced. -/
+def configureJoin (p : Pool) (nJobs qs : Nat) : Option (Pool × Backend) :=
+  let old := p.current
+  let (p', b) := configure p nJobs qs
+  match old with
+  | some i => if b.workers = some i then some (p', b) else (joinMgr p' i).map (fun p'' => (p'', b))
+  | none => some (p', b)
+
+/-- Let the manager of executor `i` run (or not): the observation branches. -/
+def observeBranches (p : Pool) (i : Option Nat) (forced : Bool) : List Pool :=
+  match i with
+  | none => [p]
+  | some i =>
+    match p.execs[i]? with
+    | none => [p]
+    | some e =>
+      let ran := setExec p i (mgrRun 1000 e).1
+      if forced then [ran] else if ran == p then [p] else [p, ran]
+
+def dedup {α} [DecidableEq α] (l : List α) : List α := l.eraseDups
+
+/-- Submit tasks `i, i+1, …` of the call; returns the branches: pool, submitted wids (reversed), or the
+exception raised by `submit`. -/
+def submitAll (c : CallSpec) (b : Backend) (argBase : Nat) :
+    Nat → Nat → Pool → List Nat → List (Pool × List Nat × Option String)
+  | 0, _, p, wids => [(p, wids, none)]
+  | n + 1, i, p, wids =>
+    -- the input generator's start-up kill, just before item `i`
+    let pools : List Pool :=
+      if c.stAt = some i then
+        match b.workers with
+        | some x =>
+          match p.execs[x]? with
+          | some e => observeBranches (setExec p x (killLowest fnTask e c.stK)) (some x) c.stObs
+          | none => [p]
+        | none => [p]
+      else [p]
+    pools.flatMap fun p =>
+      match backendSubmit p b (argBase + i) with
+      | none => [(p, wids, some "AttributeError")]
+      | some (p', .error e) => [(p', wids, some (excName e))]
+      | some (p', .ok wid) => submitAll c b argBase n (i + 1) p' (wid :: wids)
+
+/-- After a failed call: `abort_everything(ensure_ready = managed)` with its join. `none` = never returns. -/
+def abortJoin (p : Pool) (b : Backend) (nJobs qs : Nat) (managed : Bool) : Option (Pool × Backend) :=
+  match b.workers with
+  | none => none
+  | some i =>
+    match abortEverything p b nJobs qs false with
+    | none => none
+    | some (p1, _) =>
+      match joinMgr p1 i with
+      | none => none
+      | some p2 => if managed then configureJoin p2 nJobs qs else some (p2, ⟨none⟩)
+
+def runCalls (scn : Scn) : Nat → List CallSpec → Nat → Sys → List (List String)
+  | 0, _, _, sys => [sys.trace.reverse]
+  | _, [], _, sys => [sys.trace.reverse]
+  | fuel + 1, c :: rest, ci, sys =>
+    -- idle kill before the call, on the singleton's current executor
+    let p0 : Pool :=
+      match sys.pool.current with
+      | some x =>
+        match sys.pool.execs[x]? with
+        | some e => if c.preK > 0 then setExec sys.pool x (killLowest fnTask e c.preK) else sys.pool
+        | none => sys.pool
+      | none => sys.pool
+    -- has the manager of the current executor looked since? (forced when the harness let it)
+    let pools := observeBranches p0 p0.current (c.preK > 0 && c.preObs)
+    dedup <| pools.flatMap fun p1 =>
+      -- configure unless managed
+      let cfg : Option (Pool × Backend) :=
+        if scn.managed then some (p1, sys.backend) else configureJoin p1 scn.nJobs scn.queueSize
+      match cfg with
+      | none => [("hang" :: sys.trace).reverse]
+      | some (p2, b) =>
+        let idStr := match b.workers with | some i => toString i | none => "-"
+        (submitAll c b (1000 * ci) c.nTasks 0 p2 []).flatMap fun (p3, wids, err) =>
+          let finish (p : Pool) (e : CallEnd) : List (List String) :=
+            match e with
+            | .hang => [("hang" :: sys.trace).reverse]
+            | .ok =>
+              let b' := if scn.managed then b else backendTerminate b
+              runCalls scn fuel rest (ci + 1) ⟨p, b', s!"ok@{idStr}" :: sys.trace⟩
+            | .exc ex =>
+              match abortJoin p b scn.nJobs scn.queueSize scn.managed with
+              | none => [("hang" :: sys.trace).reverse]
+              | some (p', b') => runCalls scn fuel rest (ci + 1) ⟨p', b', s!"{excName ex}@{idStr}" :: sys.trace⟩
+          match err with
+          | some name =>
+            -- `submit` raised: `Parallel` aborts and re-raises
+            match abortJoin p3 b scn.nJobs scn.queueSize scn.managed with
+            | none => [("hang" :: sys.trace).reverse]
+            | some (p', b') => runCalls scn fuel rest (ci + 1) ⟨p', b', s!"{name}@{idStr}" :: sys.trace⟩
+          | none =>
+            match b.workers with
+            | none => [("AttributeError@-" :: sys.trace).reverse]
+            | some x =>
+              match p3.execs[x]? with
+              | none => [("AttributeError@-" :: sys.trace).reverse]
+              | some e0 =>
+                let victims := c.faults.filterMap fun (t, k) =>
+                  -- task `t` of this call is the `t`-th submitted wid
+                  (wids.reverse[t]?).map (fun w => (w, k))
+                let ends := exploreCall victims wids.reverse 200000 [e0] [] []
+                ends.flatMap fun (e1, ce) => finish (setExec p3 x e1) ce
+
+def insertSorted (x : String) : List String → List String
+  | [] => [x]
+  | y :: ys => if x ≤ y then x :: y :: ys else y :: insertSorted x ys
+
+def sortStrings (l : List String) : List String := l.foldr insertSorted []
+
+def handle (line : String) : String :=
+  match parseScn line with
+  | none => "bad-op"
+  | some scn =>
+    let sys0 : Sys :=
+      if scn.managed then
+        let (p, b) := configure Pool.empty scn.nJobs scn.queueSize   -- `__enter__`
+        ⟨p, b, []⟩
+      else ⟨Pool.empty, ⟨none⟩, []⟩
+    let traces := dedup (runCalls scn (scn.calls.length + 1) scn.calls 0 sys0)
+    "outs " ++ " | ".intercalate (sortStrings (traces.map joinSp))
+
+def main : IO Unit := lineLoop handle
